@@ -284,6 +284,13 @@ pub fn gen_c15(r: &mut Rng, thorough: bool, out: &mut Vec<String>) {
     for s in all_kinds() {
         out.push(format!("pun {}", show(&s)));
     }
+    for s in scale_schemas(r, if thorough { 1025 } else { 513 }, if thorough { 1025 } else { 300 }) {
+        out.push(format!("pun {}", show(&s)));
+        if let Ok(b) = postcard::to_allocvec(&s) {
+            out.push(format!("deowned {}", hex(&b)));
+            out.push(format!("deowned {}", hex(&b[..b.len() - 1])));
+        }
+    }
     let n = if thorough { 60_000 } else { 4_000 };
     for i in 0..n {
         let s = gen_schema(r, 1 + (i % 6) as u32, 1 + (i % 5) as u64);
@@ -320,6 +327,11 @@ pub fn gen_c19(r: &mut Rng, thorough: bool, out: &mut Vec<String>) {
     for s in ["(tuple u8 u8 u8)", "(tuple u8 u8 i8)", "(tuple (tuple u8 u8) (tuple u8 u8))", "(tuple)", "(tuple usize)", "(seq schema)", "(map isize usize)"] {
         out.push(format!("fmt {}", s));
         out.push(format!("discover {}", s));
+    }
+    // deep / wide schemas (the set of used types of a d-deep chain has d+1 members)
+    for s in scale_schemas(r, if thorough { 300 } else { 257 }, if thorough { 513 } else { 257 }) {
+        out.push(format!("fmt {}", show(&s)));
+        out.push(format!("discover {}", show(&s)));
     }
     let n = if thorough { 60_000 } else { 4_000 };
     for i in 0..n {
@@ -377,6 +389,9 @@ pub fn gen_c16(r: &mut Rng, thorough: bool, out: &mut Vec<String>) {
     out.push(format!("keydiff field-name {} (struct {} (struct ({} (option u8)))) (struct {} (struct ({} u8)))", hex(b""), hex(b"A"), hex(b"a"), hex(b"B"), hex(b"am")));
     out.push(format!("keydiff field-order {} (struct {} (struct ({} usize) ({} usize))) (struct {} (struct ({} usize) ({} usize)))", hex(b"p"), hex(b"S"), hex(b"x"), hex(b"xkx"), hex(b"S"), hex(b"xkx"), hex(b"x")));
     out.push(format!("keydiff element-kind {} (tuple (tuple bool) bool) (tuple (tuple bool bool))", hex(b"p")));
+    for (i, s) in scale_schemas(r, if thorough { 1025 } else { 513 }, if thorough { 1025 } else { 300 }).iter().enumerate() {
+        out.push(format!("key {} {}", hex(paths[i % 4].as_bytes()), show(s)));
+    }
     // the public constructor for concrete types (hand list, C14 corpus types, seed-generated derive programs)
     for (idx, (_, schema_of, _)) in key_registry().iter().enumerate() {
         let s = schema_of();
